@@ -964,3 +964,75 @@ func effectTableStrings() []string {
 	sort.Strings(out)
 	return out
 }
+
+// T5c: the fan-out helper hands back the answers of the plugins that succeeded together with the error; the commit
+// closures build their rollback list from that map, so returning nil (or an empty map) on failure makes every partial
+// failure unrecoverable.
+func checkCallHelper(p *Prog, r *Result) {
+	r.min("T5c", 1)
+	C := p.Fn("resource/cobalt.call")
+	key := "resource/cobalt.call / returns the answers of the plugins that succeeded on every path, also with an error"
+	if C == nil {
+		r.undecided("T5c", key, "", "resource/cobalt.call not found")
+		return
+	}
+	// the answer map: a local made with make(map[...]) that receives ans[p] = v inside a loop over the plugin list
+	var ans types.Object
+	C.inspectBody(func(n ast.Node) bool {
+		as, ok := n.(*ast.AssignStmt)
+		if !ok || len(as.Lhs) != 1 {
+			return true
+		}
+		if base, idx := indexBaseObj(C, as.Lhs[0]); base != nil && idx != nil {
+			if _, isMap := base.Type().Underlying().(*types.Map); isMap {
+				ans = base
+			}
+		}
+		return true
+	})
+	why := ""
+	nret := 0
+	if ans == nil {
+		why = "no answer map is filled per plugin"
+	} else {
+		C.inspectBody(func(n ast.Node) bool {
+			rt, ok := n.(*ast.ReturnStmt)
+			if !ok || len(rt.Results) != 2 {
+				return true
+			}
+			nret++
+			if C.objOf(rt.Results[0]) != ans {
+				why = "returns `" + exprStr(rt.Results[0]) + "` instead of the answer map at " + p.pos(rt) + ": after a partial failure the callers cannot tell which plugins applied the change, so their rollback skips them"
+			}
+			return true
+		})
+		// the map is not cleared or re-made after being filled
+		nmake := 0
+		C.inspectBody(func(n ast.Node) bool {
+			if as, ok := n.(*ast.AssignStmt); ok {
+				for _, l := range as.Lhs {
+					if C.objOf(l) == ans {
+						nmake++
+					}
+				}
+			}
+			if c, ok := n.(*ast.CallExpr); ok {
+				if id, ok := c.Fun.(*ast.Ident); ok && (id.Name == "delete" || id.Name == "clear") && len(c.Args) > 0 && C.objOf(c.Args[0]) == ans {
+					why = "entries are removed from the answer map"
+				}
+			}
+			return true
+		})
+		if nmake != 1 && why == "" {
+			why = fmt.Sprintf("the answer map is assigned %d times", nmake)
+		}
+		if nret == 0 && why == "" {
+			why = "no return statement found"
+		}
+	}
+	if why == "" {
+		r.ok("T5c", key, p.pos(C.Decl), fmt.Sprintf("%d return(s), each of the answer map", nret))
+	} else {
+		r.bad("T5c", key, p.pos(C.Decl), why)
+	}
+}
